@@ -16,7 +16,7 @@ import jax
 import jax.numpy as jnp
 
 from dverif import smt
-from dverif.poly import Space, PolyArr, clear_recip
+from dverif.poly import Space, PolyArr, clear_recip, reduce_recip_linear
 from dverif.jsym import Interp, trace, is_sym, Unsupported, NonFiniteConstant
 
 VERIF = os.path.dirname(os.path.dirname(os.path.abspath(__file__)))
@@ -262,7 +262,7 @@ def _find_witness(sp: Space, cols, vals, tau, rng, model_y=None, nra_timeout=100
 
 def prove_close(ctx: Ctx, name, fn, args, sp: Space, *, eps=1e-9, select=None, scale_floor=0.0,
                 exact=False, twin=True, core=True, config=None, batch=128, ref_scale=None,
-                validate=True, pre=None, clear_denominators=False):
+                validate=True, pre=None, clear_denominators=False, reduce_atoms=False):
   """Obligation: for every assignment in the box, lhs == rhs within eps * S.
 
   `fn(*args)` returns (lhs_tree, rhs_tree) with equal structure, or a single tree (compared
@@ -348,6 +348,8 @@ def prove_close(ctx: Ctx, name, fn, args, sp: Space, *, eps=1e-9, select=None, s
       S = max(float(ma.max(initial=0.0)), float(mb.max(initial=0.0)), scale_floor)
     tau = 0.0 if exact else eps * S
     taus = np.full(diff.size, tau)
+    if reduce_atoms:
+      diff = reduce_recip_linear(diff)
     if clear_denominators:
       diff, fac = clear_recip(diff)
       if np.any(fac == 0):
@@ -395,7 +397,8 @@ def prove_close(ctx: Ctx, name, fn, args, sp: Space, *, eps=1e-9, select=None, s
         rep = replay_point(fn, args, sp, x, li, rid, has_rhs=(b is not None))
         if rep['discrepancy'] > max(tau, 0.0) * 0.5 and rep['discrepancy'] > 0:
           idx = np.unravel_index(rid, diff.shape)
-          sig = dict(config=config, leaf=li, index=[int(v) for v in idx])
+          sig = dict(config=config, leaf=li, index=[int(v) for v in idx],
+                     termvars=_term_vars(sp, cols_all, vals_all, float(taus[rid])))
           ctx.violation(name, sig, dict(inputs=rep['inputs'], lhs=rep['lhs'], rhs=rep['rhs'],
                                         discrepancy=rep['discrepancy'], tolerance=tau, scale=S),
                         f'{name}: |lhs-rhs|={rep["discrepancy"]:.3e} > tol {tau:.3e} at leaf {li} index {tuple(int(v) for v in idx)}')
@@ -431,6 +434,22 @@ def prove_close(ctx: Ctx, name, fn, args, sp: Space, *, eps=1e-9, select=None, s
   ctx.clause(name, 'discharged' if ok else 'failed', config=config, queries=nq, elements=nrows,
              worst_rel_mass=worst, wall=time.time() - t0, nvars=sp.nvars, prims=dict(it.sym_prims))
   return ok
+
+
+def _term_vars(sp, cols, vals, tau):
+  """Variable base names of each significant term (|coef| * bound > tau/len) of a residual row."""
+  nz = vals != 0
+  cols = cols[nz]; vals = vals[nz]
+  if not len(cols):
+    return []
+  L, H = sp.mono_bounds(cols)
+  mag = np.abs(vals) * np.maximum(np.abs(L), np.abs(H))
+  keep = mag > max(tau, 0.0) / max(len(cols), 1)
+  out = set()
+  for c in cols[keep][:2000]:
+    s = sp.slots(sp.codes[c:c + 1])[0]
+    out.add(tuple(sorted({sp.names[v - 1].split('[')[0] for v in s if v})))
+  return [list(t) for t in sorted(out)][:50]
 
 
 def replay_point(fn, args, sp, x, leaf, rid, has_rhs=True):
@@ -509,6 +528,10 @@ def match_known(pid, viol, known):
     flat = {**{f'config.{a}': b for a, b in cfg.items()}, **blob,
             **{f'sig.{a}': b for a, b in (sig.items() if isinstance(sig, dict) else [])}}
     okm = True
+    if 'every_term_has' in k:
+      tv = sig.get('termvars') if isinstance(sig, dict) else None
+      if not tv or not all(any(re.fullmatch(k['every_term_has'], v) for v in term) for term in tv):
+        continue
     for key, pat in m.items():
       v = flat.get(key)
       if v is None or not re.fullmatch(str(pat), str(v)):
